@@ -196,6 +196,76 @@ static void cmd_ser(int nt, char **t)
 	ob_hex(&out, s, len);
 }
 
+/* S64 <h>  serialize under all 64 flag combinations; for each: reported length vs strlen, NUL-freeness,
+ * json-c re-parse + json_object_equal, re-serialization idempotence.
+ *   -> = T0:<hex> T1:<hex> ... | <flags>=<textindex>,<lenok><eq><idem> ...      (distinct texts are listed once) */
+static void cmd_ser64(int nt, char **t)
+{
+	int h = hidx(t[1]); int f, ntexts = 0, i;
+	char *texts[64]; size_t tl[64]; int idx[64], bits[64];
+	(void)nt;
+	for (f = 0; f < 64; f++) {
+		size_t len = 0; const char *s = json_object_to_json_string_length(H[h], f, &len);
+		int lenok, eq = 0, idem = 0;
+		if (!s) { idx[f] = -1; bits[f] = 0; continue; }
+		lenok = (strlen(s) == len);
+		for (i = 0; i < ntexts; i++) if (tl[i] == len && !memcmp(texts[i], s, len)) break;
+		if (i == ntexts) { texts[ntexts] = (char *)malloc(len + 1); memcpy(texts[ntexts], s, len + 1); tl[ntexts] = len; ntexts++; }
+		idx[f] = i;
+		if (!(f & JSON_C_TO_STRING_COLOR)) {
+			struct json_tokener *tok = json_tokener_new_ex(128);
+			struct json_object *o = json_tokener_parse_ex(tok, texts[i], (int)len + 1);
+			if (json_tokener_get_error(tok) == json_tokener_success) {
+				size_t l2 = 0; const char *s2;
+				eq = json_object_equal(H[h], o) && json_object_equal(o, H[h]);
+				s2 = json_object_to_json_string_length(o, f, &l2);
+				idem = s2 && l2 == len && !memcmp(s2, texts[i], len);
+			}
+			json_object_put(o);
+			json_tokener_free(tok);
+		} else { eq = 1; idem = 1; }
+		bits[f] = lenok * 4 + eq * 2 + idem;
+	}
+	ob_puts(&out, "=");
+	for (i = 0; i < ntexts; i++) { ob_printf(&out, " T%d:", i); ob_hex(&out, texts[i], tl[i]); free(texts[i]); }
+	ob_puts(&out, " |");
+	for (f = 0; f < 64; f++) ob_printf(&out, " %d=%d,%d", f, idx[f], bits[f]);
+}
+
+/* NUM <h> -> = i32=<v>,<errno> i64=<v>,<errno> u64=<v>,<errno> dbl=<bits>,<errno> bool=<v> type=<t> */
+static void cmd_num(int nt, char **t)
+{
+	int h = hidx(t[1]); struct json_object *o = H[h]; int32_t a; int64_t b; uint64_t c; double d; uint64_t bits; int e1, e2, e3, e4, bo;
+	(void)nt;
+	errno = 0; a = json_object_get_int(o); e1 = errno;
+	errno = 0; b = json_object_get_int64(o); e2 = errno;
+	errno = 0; c = json_object_get_uint64(o); e3 = errno;
+	errno = 0; d = json_object_get_double(o); e4 = errno;
+	bo = json_object_get_boolean(o);
+	memcpy(&bits, &d, 8);
+	ob_printf(&out, "= i32=%d,%d i64=%" PRId64 ",%d u64=%" PRIu64 ",%d dbl=%016" PRIx64 ",%d bool=%d type=%d", a, e1, b, e2, c, e3, bits, e4, bo, (int)json_object_get_type(o));
+}
+
+/* SET <h> <kind> <value>   kind: i32 i64 u64 dbl(hex bits) bool  -> = <ret> */
+static void cmd_set(int nt, char **t)
+{
+	int h = hidx(t[1]); struct json_object *o = H[h]; int r = -99;
+	(void)nt;
+	if (!strcmp(t[2], "i32")) r = json_object_set_int(o, (int)LL(t[3]));
+	else if (!strcmp(t[2], "i64")) r = json_object_set_int64(o, (int64_t)LL(t[3]));
+	else if (!strcmp(t[2], "u64")) r = json_object_set_uint64(o, (uint64_t)UL(t[3]));
+	else if (!strcmp(t[2], "dbl")) { uint64_t b = strtoull(t[3], NULL, 16); double d; memcpy(&d, &b, 8); r = json_object_set_double(o, d); }
+	else if (!strcmp(t[2], "bool")) r = json_object_set_boolean(o, (json_bool)L(t[3]));
+	ob_printf(&out, "= %d", r);
+}
+
+/* INC <h> <delta> -> = <ret> */
+static void cmd_inc(int nt, char **t)
+{
+	int h = hidx(t[1]); (void)nt;
+	ob_printf(&out, "= %d", json_object_int_inc(H[h], (int64_t)LL(t[2])));
+}
+
 /* PUT <h> -> = <ret> del=..   (handle is cleared) */
 static void cmd_put(int nt, char **t)
 {
@@ -218,12 +288,18 @@ static void dispatch(int nt, char **t)
 	else if (!strcmp(c, "B")) cmd_build(nt, t);
 	else if (!strcmp(c, "D")) cmd_dump(nt, t);
 	else if (!strcmp(c, "S")) cmd_ser(nt, t);
+	else if (!strcmp(c, "S64")) cmd_ser64(nt, t);
+	else if (!strcmp(c, "NUM")) cmd_num(nt, t);
+	else if (!strcmp(c, "SET")) cmd_set(nt, t);
+	else if (!strcmp(c, "INC")) cmd_inc(nt, t);
 	else if (!strcmp(c, "PUT")) cmd_put(nt, t);
 	else ob_printf(&out, "! unknown command %s", c);
 }
 
+static int flush_each;
 int main(int argc, char **argv)
 {
+	flush_each = getenv("VF_FLUSH") != NULL;
 	char *line = NULL; size_t cap = 0; ssize_t k;
 	FILE *in = stdin;
 	if (argc > 1) { in = fopen(argv[1], "r"); if (!in) { perror(argv[1]); return 3; } }
@@ -258,7 +334,7 @@ int main(int argc, char **argv)
 		}
 		dispatch(nt, tokv);
 		ob_putc(&out, '\n');
-		if (out.n > (1 << 15)) flush_out();
+		if (flush_each || out.n > (1 << 15)) flush_out();
 	}
 	flush_out();
 	return 0;
